@@ -93,7 +93,7 @@ Theorem ReadUvarint_is_rd_uv fuel pos (bs : list N) : Z.of_nat (List.length bs) 
   call prog std_ext fuel "uvarintReader.ReadUvarint" [rdr_val pos bs] =
   match rd_uv (skipn pos bs) with
   | Some None => RRet (VTuple [VInt 0; VErr "io.EOF"; rdr_val pos bs])
-  | None => RRet (VTuple [VInt 0; VErr "errors.New: failed to parse uvarint"; rdr_val pos bs])
+  | None => RRet (VTuple [VInt 0; VErr "errors.New"; rdr_val pos bs])
   | Some (Some (v, _)) =>
       match uvarint_dec (skipn pos bs) with
       | Some (_, n) => RRet (VTuple [VInt (Z.of_N v); VNil; rdr_val (pos + n) bs])
